@@ -1,11 +1,15 @@
 #!/bin/bash
-# usage: tools/try_patch.sh <patch.diff> <Cxx> [more ids...]   -- applies the patch to /repo, runs the checks, reverts.
+# usage: tools/try_patch.sh <abs patch.diff> <Cxx> [more ids...]
+# Applies the patch to a scratch worktree of /repo HEAD (under /tmp, removed afterwards), runs the checks against it with
+# QVC_REPO / QVC_OUT pointing away from /repo and from the committed evidence, and prints the verdict lines.  /repo is not touched.
 P=$1; shift
-git -C /repo diff --quiet || { echo "/repo not clean"; exit 2; }
-git -C /repo apply "$P" || { echo "patch does not apply"; exit 2; }
+WT=/tmp/wtm_$$; OUT=/tmp/wtm_out_$$
+git -C /repo worktree add -q --detach $WT HEAD || exit 2
+( cd $WT && git apply "$P" ) || { echo "patch does not apply"; git -C /repo worktree remove --force $WT; exit 2; }
+mkdir -p $OUT
 for id in "$@"; do
-  echo "=== $id on $(basename $(dirname $P))"
-  /verif/check $id 2>&1 | grep -E "VIOLATION|UNDECIDED|KNOWN|CONTRACT-DRIFT|^\[C|error|Error" | cut -c1-220 | head -20
+  echo "=== $id on $(basename $(dirname $P))/$(basename $P)"
+  QVC_REPO=$WT QVC_OUT=$OUT /verif/check $id 2>&1 | grep -E "VIOLATION|UNDECIDED|CONTRACT-DRIFT|^\[C|error|Error" | cut -c1-220 | head -${TRY_LINES:-12}
   echo "exit=${PIPESTATUS[0]}"
 done
-git -C /repo checkout -- .
+git -C /repo worktree remove --force $WT; rm -rf $OUT
